@@ -5,7 +5,7 @@ import os
 import subprocess
 import sys
 
-from .. import gen, par
+from .. import budget, gen, par
 from ..repo import roberta_generator as G, REPO
 
 PROP = "C15"
@@ -49,8 +49,22 @@ def work_shape(shard):
             for mr in ((1, 2, 6) if (seed % 50 or (w, l) != (2, 2)) else (1, 2, 6, 1023, 5000, 10 ** 17, 2 ** 64)):      # very large maximum rewards on a few calls
                 for p in LOOSE_PROBS:
                     for fd in (False, True):
+                        if mr >= 10 ** 6 and out.get("skipped_after_divergence") is not None:
+                            out["skipped_after_divergence"] += 1     # a violation is already recorded; do not let the process grow further
+                            continue
                         try:
-                            b = G.gen_rnd_board(seed, l, w, p, mr, fd)
+                            if mr >= 10 ** 6:
+                                # the cost of a board must not grow with the maximum reward: 2 CPU-seconds, then a deterministic line budget
+                                st, val = budget.run_budgeted(lambda: G.gen_rnd_board(seed, l, w, p, mr, fd), cpu_s=2.0, max_lines=2_000_000)
+                                if st == "exc":
+                                    raise val
+                                if st != "ok":
+                                    out["skipped_after_divergence"] = 0
+                                    raise RuntimeError("no board after 2 CPU-seconds and, run again, after 2,000,000 executed lines "
+                                                       "(the same call with max_reward=6 needs a few hundred)")
+                                b = val
+                            else:
+                                b = G.gen_rnd_board(seed, l, w, p, mr, fd)
                             why = shape_findings(b, l, w, mr, fd)
                             exc = None
                         except Exception as e:               # noqa: BLE001
